@@ -287,3 +287,59 @@ Proof.
   split; [|split; vm_compute; reflexivity].
   repeat constructor; try (vm_compute; reflexivity); apply Hwf; reflexivity.
 Qed.
+
+(* ---- the tie to the source of Structure.__setattr__ / __delitem__ / Field.__set__, re-checked every run ------
+   Gen/StructGuards.v is re-generated from typedpy/structures/structures.py (harness/genmods/py2v_struct.py).  The
+   hand-written instance model (Struct/Instance.v: setattr, mstep) IS the guard prefix the source contains NOW
+   followed by the field's descriptor chain, for every class description, state, ordinary attribute name and value. *)
+From TP Require Import Base.PyOps Base.PyOps2 Base.PyObj Gen.StructGuards Struct.StructGuardProofs.
+
+(* the guard prefix of Structure.__setattr__ is the documented decision *)
+Theorem C03_src_setattr :
+  forall (c : classdef) (inst : bool) (n : pystr) (v : pyval),
+         ordinary_name n = true ->
+         Structure__setattr (struct_heap c inst) (PStr n) v = setattr_decision c inst n v.
+Proof. exact generated_setattr. Qed.
+
+(* the model's setattr = that prefix, then the descriptor (vset, immutable-field test, store, hook) *)
+Theorem C03_src_setattr_is_model :
+  forall (re_match : N -> pystr -> bool) (e : env) (c : classdef) 
+           (inst : bool) (a : attrs) (n : pystr) (v : pyval),
+         ordinary_name n = true ->
+         setattr re_match e c inst a n v =
+         match Structure__setattr (struct_heap c inst) (PStr n) v with
+         | Ok (Some v') => descriptor re_match e c inst a n v'
+         | Ok None => (a, Done)
+         | Raise x => (a, Raised x)
+         end.
+Proof. exact generated_setattr_is_model. Qed.
+
+(* the model's DelItem step = the source's guard, then the dictionary deletion *)
+Theorem C03_src_delitem_is_model :
+  forall (re_match : N -> pystr -> bool) (e : env) (c : classdef) (a : attrs) (n : pystr),
+         mstep re_match e c a (DelItem n) =
+         match Structure__delitem (delitem_heap c) (PStr n) with
+         | Ok _ => if alist_has a n then (alist_del a n, Done) else (a, Raised KeyError)
+         | Raise x => (a, Raised x)
+         end.
+Proof. exact generated_delitem_is_model. Qed.
+
+(* Field.__set__: refuses an immutable field that already holds a value; otherwise stores, and runs __validate__ iff the instance is instantiated *)
+Theorem C03_src_field_set :
+  forall (fd : fdecl) (inst : bool) (a : attrs) (v : pyval),
+         Field__set (field_heap fd inst a) v =
+         (if fd_immutable fd && alist_has a (fd_name fd) then Raise ValueError else Ok (v, inst)).
+Proof. exact generated_field_set. Qed.
+
+(* the guard every wrapper mutator starts with *)
+Theorem C03_src_wrapper_guard :
+  forall fimm cimm : bool,
+         Mixin__raise_if_immutable (wrapper_heap fimm (Some cimm)) =
+         (if cimm || fimm then Raise ValueError else Ok tt).
+Proof. exact generated_raise_if_immutable. Qed.
+
+Print Assumptions C03_src_setattr.
+Print Assumptions C03_src_setattr_is_model.
+Print Assumptions C03_src_delitem_is_model.
+Print Assumptions C03_src_field_set.
+Print Assumptions C03_src_wrapper_guard.
